@@ -1,6 +1,7 @@
+\* table mutators + migrations, no plans: 382,212 distinct / 43.5M generated, ~75 s with 4 workers
 SPECIFICATION Spec
 CONSTANTS
-  Hs = {3, 4, 5}
+  Hs = {3, 4}
   Ps = {1, 2}
   Ss = {3}
   Phases = {0, 1, 2}
